@@ -439,4 +439,54 @@ def affine_kinds(repo: Repo) -> RuleRun:
 
 affine_kinds.rule_id = "C11.AFFINE-KINDS"
 
-RULES = [quad_map_rule, chop_coverage, chop_role, radial_convention, chain_source, mirror_pairing, trig_domain, fill_conformal, arc_side, affine_kinds]
+def stack_chain(repo: Repo) -> RuleRun:
+    """TransformedStack: tier k starts at the end sketch of tier k-1, ends at that sketch transformed once more, and its arc
+    points (the mid sketch) are derived from the tier's OWN start sketch - not from the base sketch of the stack. Abstract run of
+    the constructor on a symbolic sketch whose copies / transforms only record their history."""
+    from ..peval import NO_MATCH, Evaluator, NotEvaluable, Obj, Raised, Sym
+
+    r = RuleRun(PROP, "C11.STACK-CHAIN", floor=3, what="TransformedStack tier k = (E^k base, M E^k base, E^(k+1) base): start, mid and end sketch of every tier")
+    init = repo.func("construct.stack.TransformedStack.__init__")
+    tiers = []
+
+    def hook(ev, call: ast.Call, name):
+        f_ = call.func
+        if isinstance(f_, ast.Attribute) and f_.attr in ("copy", "transform"):
+            recv = ev.eval(f_.value)
+            if isinstance(recv, Obj) and recv.has("hist"):
+                if f_.attr == "copy":
+                    return Obj("sketch", hist=recv.get("hist"))
+                t = ev.eval(call.args[0])
+                recv.set("hist", recv.get("hist") + (repr(t),))  # transform() works in place and returns self
+                return recv
+        if name == "LoftedShape":
+            args = [ev.eval(a) for a in call.args]
+            tiers.append(tuple(a.get("hist") if isinstance(a, Obj) else a for a in args))
+            return Obj("shape")
+        return NO_MATCH
+
+    for with_mid in (True, False):
+        del tiers[:]
+        this = Obj("stack", cls=repo.cls("construct.stack.TransformedStack"))
+        base = Obj("base", hist=())
+        try:
+            Evaluator(repo=repo, module=init.module, call_hook=hook).call_funcinfo(init, [this, base, Sym("E"), 3, Sym("M") if with_mid else None])
+        except (NotEvaluable, Raised) as err:
+            raise AnalysisError(f"TransformedStack.__init__ not evaluable on the symbolic sketch: {err}") from err
+        want = [(("E",) * k, ("E",) * (k + 1), (("E",) * k + ("M",)) if with_mid else None) for k in range(3)]
+        r.check(
+            tiers == want,
+            init,
+            f"{'with' if with_mid else 'without'} mid transforms: 3 tiers chained as E^k / M E^k / E^(k+1)",
+            f"TransformedStack(base, E, repeats=3{', mid=M' if with_mid else ''}) builds its tiers from (start, end, mid) = {tiers}; expected {want}: every tier must start where the previous one "
+            "ended, and its arc points must be derived from its OWN start sketch (a mid sketch taken from the base sketch puts the arcs of tier 2, 3, ... where tier 1's are)",
+            init.node,
+            key=f"tiers:{'mid' if with_mid else 'no-mid'}",
+        )
+    r.check(base.get("hist") == (), init, "the base sketch itself is not transformed", f"the caller's base sketch was transformed in place: {base.get('hist')}", init.node, key="base-untouched")
+    return r
+
+
+stack_chain.rule_id = "C11.STACK-CHAIN"
+
+RULES = [quad_map_rule, chop_coverage, chop_role, radial_convention, chain_source, mirror_pairing, trig_domain, fill_conformal, arc_side, affine_kinds, stack_chain]
